@@ -1,6 +1,6 @@
 (* Proofs about the model of FError and RetryWithCtx (RetryLoop.v). *)
 From Coq Require Import ZArith List Bool Arith Lia.
-From LLRP Require Import Retry.RetryLoop.
+From LLRP Require Import Retry.NextWait Retry.NextWaitProofs Retry.RetryLoop.
 Import ListNotations.
 Open Scope Z_scope.
 
@@ -631,3 +631,70 @@ Proof.
   exists 3, 0, (Rec 0%nat), [StRunCtxEnded Canceled (Rec 1%nat)], O, (StRunCtxEnded Canceled (Rec 1%nat)).
   vm_compute. repeat split; auto.
 Qed.
+
+(* ------------------------------------------------------------------ configuration layer *)
+Lemma to_steps_nth : forall ts cfg n k t,
+  nth_error ts k = Some t ->
+  nth_error (to_steps cfg n ts) k =
+    Some (if exceeds (t_remaining t) (pause_of cfg (n + Z.of_nat k) (t_draw t))
+          then StExceeds else ev_step (t_ev t)).
+Proof.
+  induction ts as [|a ts IH]; intros cfg n k t H.
+  - destruct k; discriminate.
+  - destruct k as [|k]; cbn [nth_error to_steps] in *.
+    + injection H as ->. rewrite Z.add_0_r. reflexivity.
+    + rewrite (IH cfg (n + 1) k t H). replace (n + 1 + Z.of_nat k) with (n + Z.of_nat (S k)) by lia.
+      reflexivity.
+Qed.
+
+Lemma ev_step_not_exceeds : forall e, ev_step e <> StExceeds.
+Proof. destruct e; discriminate. Qed.
+
+(* the loop stops with "wait exceeds deadline" at iteration k exactly when the pause computed from
+   the CONFIGURED BackOff/Max is longer than the time left *)
+Lemma cfg_exceeds_iff : forall ts cfg n k t,
+  nth_error ts k = Some t ->
+  (nth_error (to_steps cfg n ts) k = Some StExceeds <->
+   exists d, t_remaining t = Some d /\ d < pause_of cfg (n + Z.of_nat k) (t_draw t)).
+Proof.
+  intros ts cfg n k t H. rewrite (to_steps_nth ts cfg n k t H). unfold exceeds.
+  destruct (t_remaining t) as [d|].
+  - destruct (Z.ltb_spec d (pause_of cfg (n + Z.of_nat k) (t_draw t))); split.
+    + intros _. exists d. auto.
+    + reflexivity.
+    + intros E. injection E as E. exfalso. eapply ev_step_not_exceeds; eauto.
+    + intros (d' & E & L). injection E as <-. lia.
+  - split.
+    + intros E. injection E as E. exfalso. eapply ev_step_not_exceeds; eauto.
+    + intros (d' & E & _). discriminate.
+Qed.
+
+Lemma cfg_pauses_bounded : forall ts cfg n w,
+  in_int64 (c_backoff cfg) -> in_int64 (c_max cfg) ->
+  Forall (fun t => 0 <= t_draw t) ts ->
+  In w (pauses cfg n ts) ->
+  0 <= w <= norm_max (c_max cfg) /\ (0 < c_max cfg -> w <= c_max cfg).
+Proof.
+  induction ts as [|a ts IH]; intros cfg n w Hb Hm Hd Hin; [destruct Hin|].
+  inversion Hd as [|? ? Ha Ht]; subst. cbn [pauses] in Hin. destruct Hin as [<-|Hin].
+  - unfold pause_of. split.
+    + apply pause_bounds; auto.
+    + intros Hp. apply pause_le_configured_max; auto.
+  - eapply IH; eauto.
+Qed.
+
+(* a deadline at least Max away (MaxInt64 when no Max is configured) never stops the retries *)
+Lemma cfg_far_deadline : forall ts cfg n k t d,
+  in_int64 (c_backoff cfg) -> in_int64 (c_max cfg) ->
+  nth_error ts k = Some t -> 0 <= t_draw t ->
+  t_remaining t = Some d -> norm_max (c_max cfg) <= d ->
+  nth_error (to_steps cfg n ts) k = Some (ev_step (t_ev t)).
+Proof.
+  intros ts cfg n k t d Hb Hm H Hr Hd Hfar. rewrite (to_steps_nth ts cfg n k t H).
+  unfold exceeds. rewrite Hd.
+  pose proof (pause_bounds (c_jitter cfg) (c_backoff cfg) (c_max cfg) (n + Z.of_nat k) (t_draw t) Hb Hm Hr) as P.
+  unfold pause_of. destruct (Z.ltb_spec d (pause (c_jitter cfg) (c_backoff cfg) (c_max cfg) (n + Z.of_nat k) (t_draw t))); [lia|reflexivity].
+Qed.
+
+Lemma to_steps_length : forall ts cfg n, length (to_steps cfg n ts) = length ts.
+Proof. induction ts; intros; cbn; auto. Qed.
